@@ -250,6 +250,8 @@ def method(ex, st, recv, name, args, kw, node=None):
             if b: yield s2, ex.ufdict_value(s2, recv, kz)
             else: yield s2, (args[1] if len(args) > 1 else None)
         return
+    if isinstance(recv, dict) and name == "update" and len(args) == 1 and isinstance(args[0], dict):
+        recv.update(args[0]); yield st, None; return
     if isinstance(recv, dict) and name == "keys": yield st, list(recv.keys()); return
     if isinstance(recv, dict) and name == "values": yield st, list(recv.values()); return
     if isinstance(recv, dict) and name == "items": yield st, [tuple(kv) for kv in recv.items()]; return
